@@ -1,6 +1,6 @@
 """Solver bridge: one persistent `z3 -in` process per engine instance.
 
-AIG nodes are append-only, so node definitions (`define-fun n<i>`) are sent once, at the base
+AIG nodes are append-only, so node definitions (declared constant + asserted equality) are sent once, at the base
 level, the first time a node is in the cone of a query; each query is push / assert / check-sat /
 get-value / pop.  Any `(error` line, `unknown` or a time-out is reported as 'unknown' -- never as
 unsat.  Every query can be exported as a stand-alone SMT-LIB file for the second-solver cross check.
@@ -63,6 +63,9 @@ class PipeSolver:
             self.proc = None
 
     def _send(self, text):
+        if os.environ.get('VERIF_SOLVER_LOG'):
+            with open(os.environ['VERIF_SOLVER_LOG'], 'a') as f:
+                f.write(text)
         self.proc.stdin.write(text)
 
     def _readline(self):
@@ -103,7 +106,7 @@ class PipeSolver:
                     a, b = nd[1] >> 1, nd[2] >> 1
                     if (a == 0 or a in defined) and (b == 0 or b in defined):
                         defined.add(n)
-                        out.append('(define-fun n%d () Bool (and %s %s))' % (n, self._lit(nd[1]), self._lit(nd[2])))
+                        out.append('(declare-const n%d Bool)\n(assert (= n%d (and %s %s)))' % (n, n, self._lit(nd[1]), self._lit(nd[2])))
                     else:
                         stack.append(~n)
                         stack.append(a)
@@ -114,23 +117,24 @@ class PipeSolver:
                     continue
                 nd = nodes[n]
                 defined.add(n)
-                out.append('(define-fun n%d () Bool (and %s %s))' % (n, self._lit(nd[1]), self._lit(nd[2])))
+                out.append('(declare-const n%d Bool)\n(assert (= n%d (and %s %s)))' % (n, n, self._lit(nd[1]), self._lit(nd[2])))
         if out:
             self.stats.nodes_sent += len(out)
             self._send('\n'.join(out) + '\n')
 
     def export(self, asserts):
-        """stand-alone SMT-LIB text of one query (cone only)"""
+        """stand-alone SMT-LIB text of one query (cone only). Nodes are declared constants tied to
+        their definition by asserted equalities (Tseitin style): z3 parses this in linear time,
+        whereas nested define-fun macros took minutes on cones of a few 100k nodes (measured)."""
         order = self.dag.cone(asserts)
         nodes = self.dag.nodes
         out = ['(set-logic QF_UF)']
         for n in order:
-            if nodes[n][0] == 'var':
-                out.append('(declare-const n%d Bool)' % n)
+            out.append('(declare-const n%d Bool)' % n)
         for n in order:
             nd = nodes[n]
             if nd[0] == 'and':
-                out.append('(define-fun n%d () Bool (and %s %s))' % (n, self._lit(nd[1]), self._lit(nd[2])))
+                out.append('(assert (= n%d (and %s %s)))' % (n, self._lit(nd[1]), self._lit(nd[2])))
         for a in asserts:
             out.append('(assert %s)' % self._lit(a))
         out.append('(check-sat)')
@@ -235,3 +239,65 @@ def cross_check(text, which, timeout_s=60):
         return 'unknown'
     finally:
         os.unlink(path)
+
+
+class ApiSolver(PipeSolver):
+    """fresh z3 solver per query (python API, from_string on the cone of the query): lets z3 use its
+    non-incremental preprocessing + SAT pipeline, which is much faster on large AIG cones than the
+    incremental push/pop mode of the pipe back end"""
+
+    def check(self, asserts, want_model=True, timeout_s=None):
+        st = self.stats
+        for a in asserts:
+            if a == FALSE:
+                st.trivial += 1
+                return 'unsat', None
+        asserts = [a for a in asserts if a != TRUE]
+        if not asserts:
+            st.trivial += 1
+            return 'sat', {}
+        import z3
+        t0 = time.time()
+        st.queries += 1
+        text = self.export(asserts)
+        if self.keep_queries:
+            self.keep.append(text)
+        text = text[:-len('(check-sat)\n')]
+        tmo = timeout_s if timeout_s is not None else self.timeout_s
+        try:
+            s = z3.Solver()
+            s.set('timeout', int(tmo * 1000))
+            s.from_string(text)
+            r = s.check()
+        except z3.Z3Exception as e:
+            st.unknown += 1
+            st.solver_s += time.time() - t0
+            return 'unknown', 'z3 exception: %s' % str(e)[:200]
+        dt = time.time() - t0
+        st.solver_s += dt
+        st.max_query_s = max(st.max_query_s, dt)
+        if r == z3.unsat:
+            st.unsat += 1
+            return 'unsat', None
+        if r == z3.sat:
+            st.sat += 1
+            model = None
+            if want_model:
+                m = s.model()
+                nodes = self.dag.nodes
+                model = {}
+                for dcl in m.decls():
+                    nd = nodes[int(dcl.name()[1:])]
+                    if nd[0] == 'var':
+                        model[nd[1]] = bool(m[dcl])
+            return 'sat', model
+        st.unknown += 1
+        return 'unknown', s.reason_unknown()
+
+    def close(self):
+        pass
+
+
+def make_solver(dag):
+    kind = os.environ.get('VERIF_SOLVER', 'api')
+    return PipeSolver(dag) if kind == 'pipe' else ApiSolver(dag)
